@@ -379,6 +379,13 @@ func judgeC05(c *Ctx, sc *Scenario) *Violation {
 
 func init() {
 	Register(&Prop{ID: "C05", Components: componentsA,
+		// every run starts with one scaling pair, so that the linear-time part
+		// never depends on the draw
+		Prefix: func(c *Ctx) (*Scenario, *Violation) {
+			sc := &Scenario{Format: 1, Property: "C05", Engine: "B", World: scalingWorld(16), Inv: Invocation{Args: []string{"--json", "--no-progress"}, Cwd: "top"},
+				Params: c05Params{Shape: "scaling", Breadth: 24000}}
+			return sc, judgeC05(c, sc)
+		},
 		Check: func(c *Ctx, rt *rapid.T) {
 			sc := genC05(G{rt})
 			if v := judgeC05(c, sc); v != nil {
